@@ -94,6 +94,13 @@ func enumPaths(fn *ssa.Function) ([]fnPath, bool) {
 
 // evalTable: for every assignment over the atoms, the set of result classes of the consistent paths.
 func evalTable(paths []fnPath, atoms []string, atomOf func(ssa.Value) (string, bool, bool), classOf func(*ssa.Return) string) (map[string]string, string) {
+	return evalTableFree(paths, atoms, atomOf, classOf, false)
+}
+
+// evalTableFree: with free set, a condition that is none of the atoms constrains nothing (both of its sides count as
+// consistent with every assignment), so the table over-approximates: a row is right only if it is right whatever
+// the other conditions are.
+func evalTableFree(paths []fnPath, atoms []string, atomOf func(ssa.Value) (string, bool, bool), classOf func(*ssa.Return) string, free bool) (map[string]string, string) {
 	res := map[string]string{}
 	for mask := 0; mask < 1<<uint(len(atoms)); mask++ {
 		asg := map[string]bool{}
@@ -112,6 +119,9 @@ func evalTable(paths []fnPath, atoms []string, atomOf func(ssa.Value) (string, b
 			for _, c := range p.conds {
 				cv, pol := flattenCond(c.cond, c.pol)
 				name, neg, ok := atomOf(cv)
+				if !ok && free {
+					continue
+				}
 				if !ok {
 					return nil, "condition " + describeValue(cv) + " is not one of the expected atoms"
 				}
@@ -255,12 +265,14 @@ func ruleTAB1(w *World) []Ob {
 			}
 			return g, b.Op == token.NEQ, true
 		}
-		classOf := func(r *ssa.Return) string {
-			v := rr(r)[0]
+		// classify a returned value; errV / rowV are what stands for the parser's error and the row at this level (the
+		// mapper's parameters, or the arguments a constructor helper was given for them)
+		var classVal func(v ssa.Value, errV, rowV ssa.Value, at *ssa.Return, d int) string
+		classVal = func(v ssa.Value, errV, rowV ssa.Value, at *ssa.Return, d int) string {
 			switch {
 			case isNilConst(v):
 				return "nil"
-			case sameVar(v, errPrm):
+			case errV != nil && sameVar(v, errV):
 				return "same"
 			case globalName(v) != "":
 				return "sentinel:" + globalName(v)
@@ -274,7 +286,7 @@ func ruleTAB1(w *World) []Ob {
 						if fa, ok := r2.(*ssa.FieldAddr); ok {
 							if _, f, _ := fieldOf(fa); f == "row" {
 								for _, r3 := range *fa.Referrers() {
-									if st, ok := r3.(*ssa.Store); ok && sameVar(st.Val, rowPrm) {
+									if st, ok := r3.(*ssa.Store); ok && rowV != nil && sameVar(st.Val, rowV) {
 										rowOK = true
 									}
 								}
@@ -287,10 +299,65 @@ func ruleTAB1(w *World) []Ob {
 					return "new:" + tn
 				}
 			}
-			if nc.nonNil(v, r, 0) {
+			if c, ok := v.(*ssa.Call); ok {
+				// the parser's error wrapped with %w (and more context): still that error for errors.Is / errors.As
+				if calleeFullName(c.Common()) == "fmt.Errorf" && errV != nil {
+					if f, ok := constString(c.Common().Args[0]); ok && strings.Count(f, "%w") == 1 {
+						if elems, ok := variadicElems(c.Common().Args[len(c.Common().Args)-1]); ok {
+							for _, a := range elems {
+								if ci, isCI := a.(*ssa.ChangeInterface); isCI {
+									a = ci.X
+								}
+								if isErrorType(a.Type()) && sameVar(a, errV) {
+									return "same"
+								}
+							}
+						}
+					}
+				}
+				// a constructor helper of the module: the class all its returns agree on
+				if h := c.Common().StaticCallee(); h != nil && p.InModule(h) && len(h.Blocks) > 0 && d < 2 && h.Signature.Results().Len() == 1 {
+					var he, hr ssa.Value
+					for i, a := range callArgs(c.Common()) {
+						if i >= len(h.Params) {
+							break
+						}
+						if errV != nil && sameVar(a, errV) {
+							he = h.Params[i]
+						}
+						if rowV != nil && sameVar(a, rowV) {
+							hr = h.Params[i]
+						}
+					}
+					cls := map[string]bool{}
+					allInstrs(h, func(in ssa.Instruction) {
+						if r2, ok := in.(*ssa.Return); ok {
+							cls[classVal(rr(r2)[0], he, hr, r2, d+1)] = true
+						}
+					})
+					if len(cls) == 1 {
+						for k := range cls {
+							if k != "unknown" {
+								return k
+							}
+						}
+					}
+				}
+			}
+			if at != nil && nc.nonNil(v, at, 0) {
 				return "nonnil"
 			}
 			return "unknown"
+		}
+		classOf := func(r *ssa.Return) string {
+			var ev, rv ssa.Value
+			if errPrm != nil {
+				ev = errPrm
+			}
+			if rowPrm != nil {
+				rv = rowPrm
+			}
+			return classVal(rr(r)[0], ev, rv, r, 0)
 		}
 		tab, why := evalTable(paths, atoms, atomOf, classOf)
 		if why != "" {
@@ -348,6 +415,12 @@ func ruleTAB1(w *World) []Ob {
 		}
 		// Parse: ErrBlankLine only under isBlank
 		if parse := p.Func("(*markdown.Parser).Parse"); parse != nil {
+			// Parse may be a thin wrapper (locking, bookkeeping) that hands back the results of the function doing the work
+			for d := 0; d < 2; d++ {
+				if h := forwardsResultsOf(p, parse); h != nil {
+					parse = h
+				}
+			}
 			bad := ""
 			nBlank := 0
 			allInstrs(parse, func(in ssa.Instruction) {
@@ -677,6 +750,25 @@ func ruleTAB3(w *World) []Ob {
 						continue
 					}
 				}
+				// a shortcut for the empty extension list: ∃ over nothing is false, so `false` is the specified answer there
+				if bo, isB := c.(*ssa.BinOp); isB {
+					if _, neg, isLen := lenAtom(c); isLen {
+						var lc *ssa.Call
+						if x, ok := bo.X.(*ssa.Call); ok && isBuiltinCall(x, "len") {
+							lc = x
+						} else if y, ok := bo.Y.(*ssa.Call); ok && isBuiltinCall(y, "len") {
+							lc = y
+						}
+						if lc != nil {
+							if _, f, okF := fieldOfLoad(lc.Common().Args[0]); okF && f == "extensions" {
+								if nonEmpty := pol != neg; !nonEmpty {
+									gs = append(gs, "noext")
+								}
+								continue
+							}
+						}
+					}
+				}
 				gs = append(gs, "other:"+describeValue(c))
 				continue
 			}
@@ -720,6 +812,10 @@ func ruleTAB3(w *World) []Ob {
 		} else {
 			if strings.Contains(key, "nilguard") {
 				return // `return false` for a nil receiver / node
+			}
+			if strings.Contains(key, "noext") && !strings.Contains(key, "other:") {
+				nFalse++
+				return // no extension configured: nothing is a file
 			}
 			nFalse++
 			switch key {
@@ -779,6 +875,17 @@ func ruleTAB3(w *World) []Ob {
 	}
 	allInstrs(fn, func(in ssa.Instruction) {
 		if r, ok := in.(*ssa.Return); ok {
+			// a return shared by the arms of `a || b` has no dominating guard of its own: judge it once per incoming edge
+			if _, isC := constBool(rr(r)[0]); isC && len(r.Block().Preds) > 1 && len(r.Block().Instrs) == 1 {
+				for _, pred := range r.Block().Preds {
+					gs := append([]Guard{}, guardsOf(pred)...)
+					if iff, ok := pred.Instrs[len(pred.Instrs)-1].(*ssa.If); ok && pred.Succs[0] != pred.Succs[1] {
+						gs = append(gs, Guard{If: iff, Cond: iff.Cond, Pol: pred.Succs[0] == r.Block(), Succ: r.Block()})
+					}
+					value(rr(r)[0], gs, false, p.InstrPos(r), 0)
+				}
+				return
+			}
 			value(rr(r)[0], guardsOf(r.Block()), false, p.InstrPos(r), 0)
 		}
 	})
@@ -985,7 +1092,7 @@ func ruleTAB4(w *World) []Ob {
 		}
 		return "unknown"
 	}
-	tab, why := evalTable(paths, atoms, atomOf, classOf)
+	tab, why := evalTableFree(paths, atoms, atomOf, classOf, true)
 	if why != "" {
 		l.undecided(p.FuncID(fn), "verdict", p.Pos(fn.Pos()), why, "verdict")
 		return l.list
@@ -1022,6 +1129,14 @@ func ruleTAB4(w *World) []Ob {
 		}
 		if sameVar(v, src) {
 			return true
+		}
+		if ph, ok := v.(*ssa.Phi); ok {
+			for _, e := range ph.Edges {
+				if !permOf(e, src, d+1) {
+					return false
+				}
+			}
+			return len(ph.Edges) > 0
 		}
 		c, ok := resolve(v).(*ssa.Call)
 		if !ok {
@@ -1990,6 +2105,59 @@ func ruleTAB7(w *World) []Ob {
 					printed = true
 				}
 			})
+			// the err != nil side hands the error to a helper of package main that prints it on stderr and exits non-zero
+			allInstrs(m, func(in ssa.Instruction) {
+				c, ok := in.(*ssa.Call)
+				if !ok || c.Common().StaticCallee() == nil || p.PkgPath(c.Common().StaticCallee()) != cliPkgPath || len(c.Common().StaticCallee().Blocks) == 0 {
+					return
+				}
+				h := c.Common().StaticCallee()
+				idx := -1
+				for i, a := range c.Common().Args {
+					if stripConv(a) == ssa.Value(run) {
+						idx = i
+					}
+				}
+				if idx < 0 || idx >= len(h.Params) {
+					return
+				}
+				for _, g := range guardsOf(c.Block()) {
+					tv, nonNil, ok := nilTest(g.Cond, g.Pol)
+					if !(ok && nonNil && stripConv(tv) == ssa.Value(run)) {
+						return
+					}
+				}
+				if len(guardsOf(c.Block())) == 0 {
+					return
+				}
+				var hPrint *ssa.Call
+				hExit := false
+				allInstrs(h, func(in2 ssa.Instruction) {
+					c2, ok := in2.(*ssa.Call)
+					if !ok || len(guardsOf(c2.Block())) != 0 {
+						return
+					}
+					if isStderrWrite(c2.Common()) && hPrint == nil {
+						for _, a := range c2.Common().Args[1:] {
+							if elems, ok := variadicElems(a); ok {
+								for _, e := range elems {
+									if stripConv(e) == ssa.Value(h.Params[idx]) {
+										hPrint = c2
+									}
+								}
+							}
+						}
+					}
+					if calleeFullName(c2.Common()) == "os.Exit" && hPrint != nil && dominatesInstr(hPrint, c2) {
+						if k, isC := constInt(c2.Common().Args[0]); isC && k != 0 {
+							hExit = true
+						}
+					}
+				})
+				if hPrint != nil && hExit {
+					printed, exits = true, true
+				}
+			})
 			silentExit := ""
 			var printCalls []*ssa.Call
 			allInstrs(m, func(in ssa.Instruction) {
@@ -2058,6 +2226,11 @@ func ruleTAB7(w *World) []Ob {
 								l.ok(p.FuncID(ci.Parent()), cc, p.InstrPos(ci), fmt.Sprintf("non-zero constant (%d) handed to the helper that calls cli.Exit", kk), false, "code")
 								continue
 							}
+							// the helper's caller received the code itself: every one of its callers passes a non-zero constant
+							if exitCodeNonZero(p, args[idx], 1) {
+								l.ok(p.FuncID(ci.Parent()), cc, p.InstrPos(ci), "a parameter for which every call site passes a non-zero constant", false, "code")
+								continue
+							}
 						}
 						l.bad(p.FuncID(ci.Parent()), cc, p.InstrPos(ci), "the exit code handed to the cli.Exit helper is zero or not a constant: a failure would be reported as success", "code")
 					}
@@ -2070,6 +2243,94 @@ func ruleTAB7(w *World) []Ob {
 				l.bad(p.FuncID(fn), construct, p.InstrPos(c), "exit code is zero or not a constant: a failure would be reported as success", "code")
 			}
 		})
+	}
+	// exit codes carried by an error type of package main that implements cli.ExitCoder: ExitCode() hands back a field,
+	// and everything stored into that field is a non-zero constant (directly, or as a constructor parameter for which
+	// every call site passes one)
+	for _, fn := range p.ModFuncs {
+		if p.PkgPath(fn) != cliPkgPath || fname(fn) != "ExitCode" || fn.Signature.Recv() == nil || len(fn.Blocks) == 0 {
+			continue
+		}
+		var field *ssa.FieldAddr
+		okShape := true
+		allInstrs(fn, func(in ssa.Instruction) {
+			r, isR := in.(*ssa.Return)
+			if !isR || len(rr(r)) != 1 {
+				return
+			}
+			if k, isC := constInt(stripConv(rr(r)[0])); isC {
+				if k == 0 {
+					okShape = false
+				}
+				return
+			}
+			ld, isL := isLoad(stripConv(rr(r)[0]))
+			fa, isFA := ld.(*ssa.FieldAddr)
+			if !isL || !isFA {
+				okShape = false
+				return
+			}
+			field = fa
+		})
+		if !okShape {
+			nExit++
+			l.bad(p.FuncID(fn), "exit code of the error type", p.Pos(fn.Pos()), "ExitCode() can return zero or a value that is not a field of the error: a failure would be reported as success", "code")
+			continue
+		}
+		if field == nil {
+			nExit++
+			l.ok(p.FuncID(fn), "exit code of the error type", p.Pos(fn.Pos()), "ExitCode() returns non-zero constants only", false, "code")
+			continue
+		}
+		key := relTypeString(field.X.Type()) + "." + fieldName(field.X.Type(), field.Field)
+		num := numbered{}
+		for _, g := range p.ModFuncs {
+			if p.PkgPath(g) != cliPkgPath {
+				continue
+			}
+			g := g
+			allInstrs(g, func(in ssa.Instruction) {
+				st, isSt := in.(*ssa.Store)
+				if !isSt {
+					return
+				}
+				sfa, isF := st.Addr.(*ssa.FieldAddr)
+				if !isF || relTypeString(sfa.X.Type())+"."+fieldName(sfa.X.Type(), sfa.Field) != key {
+					return
+				}
+				nExit++
+				construct := num.name("exit code stored in " + key)
+				if exitCodeNonZero(p, st.Val, 0) {
+					l.ok(p.FuncID(g), construct, p.InstrPos(st), "a non-zero constant, or a parameter for which every call site passes one", false, "code")
+					// one obligation per call site that chooses the code
+					var prms []*ssa.Parameter
+					var collect func(v ssa.Value, d int)
+					collect = func(v ssa.Value, d int) {
+						v = stripConv(v)
+						switch x := v.(type) {
+						case *ssa.Parameter:
+							prms = append(prms, x)
+						case *ssa.Phi:
+							if d < 3 {
+								for _, e := range x.Edges {
+									collect(e, d+1)
+								}
+							}
+						}
+					}
+					collect(st.Val, 0)
+					for _, prm := range prms {
+						for _, ci := range p.Callers(prm.Parent()) {
+							nExit++
+							l.ok(p.FuncID(ci.Parent()), num.name("exit code passed to "+fname(prm.Parent())), p.InstrPos(ci), "non-zero constant handed to the constructor of the exit error", false, "code")
+						}
+					}
+					_ = prms
+				} else {
+					l.bad(p.FuncID(g), construct, p.InstrPos(st), "the exit code stored in the error can be zero or is not a constant at some call site: a failure would be reported as success", "code")
+				}
+			})
+		}
 	}
 	if nExit == 0 {
 		l.undecided("cmd/gtree", "cli.Exit codes", "-", "no cli.Exit call found", "code")
@@ -2223,10 +2484,22 @@ func ruleTAB7(w *World) []Ob {
 					// dry-run is routed through a helper that is itself called under the flag
 					if !okFlag {
 						for _, ci := range p.Callers(fn) {
-							for _, g := range guardsOf(ci.(ssa.Instruction).Block()) {
-								cd, pol := flattenCond(g.Cond, g.Pol)
-								if pol && isCLIFlagBool(cd, wr.flag) {
-									okFlag = true
+							blocks := []*ssa.BasicBlock{ci.(ssa.Instruction).Block()}
+							// the call sits in a function literal: the literal is created under the flag
+							for lit, d := ci.Parent(), 0; lit != nil && lit.Parent() != nil && d < 2; lit, d = lit.Parent(), d+1 {
+								lit := lit
+								allInstrs(lit.Parent(), func(in ssa.Instruction) {
+									if mc, isMC := in.(*ssa.MakeClosure); isMC && mc.Fn == ssa.Value(lit) {
+										blocks = append(blocks, mc.Block())
+									}
+								})
+							}
+							for _, blk := range blocks {
+								for _, g := range guardsOf(blk) {
+									cd, pol := flattenCond(g.Cond, g.Pol)
+									if pol && isCLIFlagBool(cd, wr.flag) {
+										okFlag = true
+									}
 								}
 							}
 						}
@@ -2686,6 +2959,32 @@ func reachesLibraryCall(p *Prog, v ssa.Value, depth int) bool {
 					}
 				}
 			}
+			// a call of a function-typed parameter (withInput(path, func(in io.Reader) error {…})): the function values
+			// that the call sites of the enclosing function pass for it
+			if prm, isP := x.Common().Value.(*ssa.Parameter); isP && !x.Common().IsInvoke() && prm.Parent() != nil {
+				idx := paramIndex(prm.Parent(), prm)
+				for _, ci := range p.Callers(prm.Parent()) {
+					args := callArgs(ci.Common())
+					if idx < 0 || idx >= len(args) {
+						continue
+					}
+					var target *ssa.Function
+					switch f := resolve(args[idx]).(type) {
+					case *ssa.MakeClosure:
+						target = f.Fn.(*ssa.Function)
+					case *ssa.Function:
+						target = f
+					}
+					if target == nil || len(target.Blocks) == 0 {
+						continue
+					}
+					for i, a := range x.Common().Args {
+						if a == v && i < len(target.Params) && reachesLibraryCall(p, target.Params[i], depth+1) {
+							return true
+						}
+					}
+				}
+			}
 		}
 	}
 	return false
@@ -2876,4 +3175,74 @@ func calledOnlyOnTrueSide(p *Prog, f, pred *ssa.Function, fam map[*ssa.Function]
 		}
 	}
 	return n > 0
+}
+
+
+// forwardsResultsOf: every return of fn hands back, unchanged and in order, the results of one call of a module
+// function; that function, else nil.
+func forwardsResultsOf(p *Prog, fn *ssa.Function) *ssa.Function {
+	var call *ssa.Call
+	ok, n := true, 0
+	allInstrs(fn, func(in ssa.Instruction) {
+		r, isR := in.(*ssa.Return)
+		if !isR || (fn.Recover != nil && r.Block() == fn.Recover) {
+			return
+		}
+		n++
+		for i, v := range rr(r) {
+			var c *ssa.Call
+			if len(rr(r)) == 1 {
+				c, _ = v.(*ssa.Call)
+			} else if ex, isEx := v.(*ssa.Extract); isEx && ex.Index == i {
+				c, _ = ex.Tuple.(*ssa.Call)
+			}
+			if c == nil || (call != nil && c != call) {
+				ok = false
+				return
+			}
+			call = c
+		}
+	})
+	if !ok || n == 0 || call == nil {
+		return nil
+	}
+	h := call.Common().StaticCallee()
+	if h == nil || !p.InModule(h) || len(h.Blocks) == 0 {
+		return nil
+	}
+	return h
+}
+
+
+// exitCodeNonZero: v is a non-zero constant, or a parameter for which every call site of its function passes one.
+func exitCodeNonZero(p *Prog, v ssa.Value, d int) bool {
+	v = stripConv(v)
+	if k, ok := constInt(v); ok {
+		return k != 0
+	}
+	if ph, isPhi := v.(*ssa.Phi); isPhi && d <= 3 {
+		for _, e := range ph.Edges {
+			if !exitCodeNonZero(p, e, d+1) {
+				return false
+			}
+		}
+		return len(ph.Edges) > 0
+	}
+	prm, ok := v.(*ssa.Parameter)
+	if !ok || d > 3 || prm.Parent() == nil {
+		return false
+	}
+	f := prm.Parent()
+	idx := inputIndexParam(f, prm)
+	callers := p.Callers(f)
+	if len(callers) == 0 || idx < 0 {
+		return false
+	}
+	for _, ci := range callers {
+		args := callArgs(ci.Common())
+		if idx >= len(args) || !exitCodeNonZero(p, args[idx], d+1) {
+			return false
+		}
+	}
+	return true
 }
